@@ -66,16 +66,45 @@ def observe(out, traps):
     return ("other", st, out["stdout"][:100], out["stderr"][:160])
 
 
-def witness_args(lifted, extra, timeout_ms=30000):
-    """model of assumptions + extra with arrays short enough for the driver -> (model, argv, conc)"""
+_POOL = {32: [0, 1, -1, 2, 3, -2, -(1 << 31), (1 << 31) - 1, -(1 << 31) + 1, 46341, 65536, -65536, 31, 32, 33, 7, -7, 1 << 30],
+         64: [0, 1, -1, 2, 3, -2, -(1 << 63), (1 << 63) - 1, -(1 << 63) + 1, 1 << 31, 1 << 32, 3037000500, -(1 << 32), 63, 64, 7, -7,
+              1 << 62],
+         8: [0, 1, 2, 127, 128, 255]}
+
+
+def witness_args(lifted, extra, timeout_ms=30000, probes=60):
+    """model of assumptions + extra with arrays short enough for the driver -> (model, argv, conc).
+    Boundary-value candidates for the scalar arguments are tried first (each makes the query
+    nearly concrete); the unconstrained search is the fall-back.  Only used to obtain witnesses,
+    never for a verdict."""
+    import random
     s = z3.Solver()
-    s.set("timeout", timeout_ms)
+    s.set("timeout", min(timeout_ms, 5000))
     s.add(*lifted.assumptions)
     s.add(*extra)
     s.add(*kern.array_elem_constraints(lifted.k, lifted.setup))
-    if s.check() != z3.sat:
-        return None, None, None
-    m = s.model()
+    scal = [(n, t) for n, t in lifted.k.params if t.kind in ("int", "u8")]
+    rnd = random.Random(hash(lifted.k.name) & 0xFFFF)
+    m = None
+    if scal and probes:
+        for i in range(probes):
+            s.push()
+            for n, t in scal:
+                v = rnd.choice(_POOL[t.bits])
+                s.add(lifted.setup.vals[n] == BV(v % (1 << t.bits), t.bits))
+            for n, t in lifted.k.arrays():
+                s.add(lifted.setup.lens[n] == BV(rnd.choice([0, 1, 2, 3, 5]), 64))
+            r = s.check()
+            if r == z3.sat:
+                m = s.model()
+                s.pop()
+                break
+            s.pop()
+    if m is None:
+        s.set("timeout", timeout_ms)
+        if s.check() != z3.sat:
+            return None, None, None
+        m = s.model()
     av, conc = kern.argv_of(lifted.k, lifted.setup, m, 0)
     return m, av, conc
 
